@@ -51,6 +51,7 @@ type World struct {
 	defIndex        map[string]*definer
 	GlobalInvs      []*GlobalInv
 	writeSummary    map[string]int
+	UsedAxioms      map[string]bool
 	allocSummary    map[*ssa.Function]int
 	writeCuts       int
 	fnByConst       map[string]*ssa.Function
